@@ -10,6 +10,7 @@ def relayout(rng, toks, lex):
     """The same tokens with another layout (separators, comments, newlines)."""
     seps = [" ", "\n", "\t", "  ", " /* c */ ", " // c\n", "\n\n", "\r\n", " /***/ ", "/**/",
             # block comments over several lines, with every line-end convention, lines ending in `*`, banners
+            "/*/*/", " /*/ c */ ", "/*/ b /*/", " /*// c */ ", "/*/\n*/",          # a comment whose text begins with a slash
             "/**\n * c\n */", "/**\r\n * c\r\n */", "/*\r*\r*/", " /*****\r\n c *\r\n *****/ ", "/* * / ** /\t*\t*/", " // c\r\n", "//\n", "\r", "/*\n\n*/"]
     parts = []
     for k, s in zip(toks, lex):
